@@ -64,6 +64,7 @@ LISTING_OPT = {"hexasm": ["--instrs", "--tokens"], "xcmp": ["-S", "--tokens", "-
 EXTRA_OPT = {"hexasm": [], "xcmp": ["--memory-info"]}
 
 
+OLD = b"OLD CONTENT " * 40000
 EMPTY_IMAGE_OK = ("empty-file", "comment-only", "blank-lines", "labels-only")
 
 
@@ -150,7 +151,7 @@ def exec_case(i, c):
                 open(os.path.join(d, srcname), "w").write(c["text"])
             target = "a.out" if c["opt"] is None or c["kind"] == "listing" else "out.bin"
             if c["pre"]:
-                open(os.path.join(d, target), "w").write("OLD CONTENT")
+                open(os.path.join(d, target), "wb").write(OLD)   # larger than any binary written here: a writer that does not truncate leaves a tail
             args = [T[c["tool"]]]
             if c["kind"] == "listing":
                 args += [srcname, c["opt"]]
@@ -190,7 +191,7 @@ def exec_case(i, c):
                 else:
                     data = rd(os.path.join(d, target))
                     info["sha"] = hashlib.sha256(data).hexdigest()
-                    if data == b"OLD CONTENT" or len(data) < 8:
+                    if data == OLD or len(data) < 8:
                         v.append(("output-not-written", "file %s does not hold a binary" % target))
                     else:
                         n = struct.unpack("<I", data[:4])[0]
